@@ -19,6 +19,7 @@ def outS : Out → String
   | .angles t l => "angles:" ++ tmS t ++ "," ++ tmS l
   | .metaOut none => "meta:none"
   | .metaOut (some t) => "meta:" ++ tmS t
+  | .saved t => "saved:" ++ tmS t
 
 def parseOp? : String → Option Op
   | "getTimes" => some .getTimes
@@ -31,6 +32,7 @@ def parseOp? : String → Option Op
   | "calibrated" => some .calibrated
   | "angles" => some .angles
   | "readMeta" => some .readMeta
+  | "save" => some .save
   | _ => none
 
 /-- cmd: c12 <pod 0/1> <enabled> <table> <tle> <ops, comma separated>
